@@ -4,7 +4,7 @@ func init() {
 	register(&PropDef{
 		ID:    "C01",
 		Level: "other",
-		Explanation: "The concurrency bound is decided as a set of inductive lemmas over single operations, each a shape of the code (their conjunction over histories is argued in DESIGN.md, not mechanised): ADMIT-GUARD — the start function is called only where the admission decision's value set is {Start}, and in the dequeue loop only over a decision taken in the same iteration; START-ONLY-IF-FREE — on every order type of its inputs the admission table yields Start only if running < concurrency; NO UNDERCOUNT — the counting function ranges over the pipeline's whole list and increments whenever started ∧ ¬completed ∧ ¬canceled (8-row table, implication); SLOT-END — only the completion handler marks a job completed, it is called only by the job's scheduling goroutine after Scheduler.Schedule returned, whose stage goroutines are WaitGroup-paired and waited for before every return; the cancel request marks only unstarted jobs canceled directly; REGISTERED-BEFORE-STARTED; decision and start lie in one lock region; NO LOST UPDATE on the wait list (a popped job cannot reappear and be started twice).",
+		Explanation: "The concurrency bound is decided as a set of inductive lemmas over single operations, each a shape of the code (their conjunction over histories is argued in DESIGN.md, not mechanised): ADMIT-GUARD — the start function is called only where the admission decision's value set is {Start}, and in the dequeue loop only over a decision taken in the same iteration; START-ONLY-IF-FREE — on every order type of its inputs the admission table yields Start only if running < concurrency; NO UNDERCOUNT — the counting function ranges over the pipeline's whole list and increments whenever started ∧ ¬completed ∧ ¬canceled (8-row table, implication); SLOT-END — only the completion handler marks a job completed, it is called only by the job's scheduling goroutine after Scheduler.Schedule returned, whose stage goroutines are WaitGroup-paired and waited for before every return; the cancel request marks only unstarted jobs canceled directly; REGISTERED-BEFORE-STARTED; decision and start lie in one lock region; NO LOST UPDATE on the wait list (a popped job cannot reappear and be started twice); RELOAD APPLIES — in package app every path of the reload function that finds the freshly loaded definitions unequal passes them to ReplaceDefinitions, and the baseline of that comparison is a variable that outlives the invocation and is set to the applied definitions (a changed limit is not silently ignored).",
 		Trusted:     []string{"C13 (operations are atomic under the runner mutex)", "upstream taskctl runner executes a stage only inside Runner.Run"},
 		NotDecided:  []string{"joint sufficiency of the lemmas over arbitrary histories (paper argument)", "effects of lowering the limit on already running jobs (allowed by the statement)"},
 		Check: func(w *World, r *Report) {
@@ -88,7 +88,7 @@ func init() {
 	register(&PropDef{
 		ID:    "C16",
 		Level: "other",
-		Explanation: "Reload isolation as who-reads/who-writes facts: the job literal takes Tasks (through the snapshot constructor), Env, StartDelay and Pipeline from the definition looked up in the accept function's lock region; the live definitions (r.defs) are read only by the functions listed with a reason (admission, accept-time lookup, fail-fast at failure time, retention at save time, pipeline listing) — in particular not by the start function, the graph builder or the scheduler callbacks; the graph is built from fields of the job itself; the task-runner factory reads the job's Env and captures no definitions; the reload's only effect is `defs = new`; no definition struct or map is mutated in place outside the loader (jobs share them by reference); the dequeue decision for a head whose timer is not pending ignores the current definition's delay (a reload cannot strand queued jobs).",
+		Explanation: "Reload isolation as who-reads/who-writes facts: the job literal takes Tasks (through the snapshot constructor), Env, StartDelay and Pipeline from the definition looked up in the accept function's lock region; the live definitions (r.defs) are read only by the functions listed with a reason (admission, accept-time lookup, fail-fast at failure time, retention at save time, pipeline listing) — in particular not by the start function, the graph builder or the scheduler callbacks; the graph is built from fields of the job itself; the task-runner factory reads the job's Env and captures no definitions; the reload's only effect is `defs = new`; no definition struct or map is mutated in place outside the loader (jobs share them by reference); the dequeue decision for a head whose timer is not pending ignores the current definition's delay (a reload cannot strand queued jobs); slices held in definition structs (script, depends_on) are never written through — element store, in-place filter append, sort, copy, directly or in a module callee; the reload function of package app replaces on every unequal comparison and keeps its comparison baseline up to date (reload.baseline).",
 		Trusted:     []string{"C13", "definitions handed to ReplaceDefinitions are not mutated by the embedder afterwards"},
 		NotDecided:  []string{"what an embedder does with definition values it still holds"},
 		Check: func(w *World, r *Report) {
